@@ -3,7 +3,7 @@
 # re-confirm it (verify_seeded.sh: applies, builds, 176/176, demo passes clean / fails changed) and run the quick check of its
 # property against it in a private mount namespace (try_mutant_ns.sh). Lines go to seeded/verify2.log and seeded/matrix2.log.
 ID=$1; M=$2; BUDGET=${3:-30}
-src=/tmp/mut2/$ID.out/$M; dst=/verif/seeded/$ID-$M
+src=${MUTDIR:-/tmp/mut2}/$ID.out/$M; dst=/verif/seeded/$ID-$M
 [ -f "$src/patch.diff" ] || { echo "no $src/patch.diff"; exit 1; }
 rm -rf "$dst"; mkdir -p "$dst"
 for f in patch.diff demo.c run.sh README.txt; do [ -f "$src/$f" ] && cp "$src/$f" "$dst/"; done
